@@ -1,11 +1,11 @@
 """C16 -- configuration switches and defaults mean what the guide says."""
-import itertools, json, os, random, shutil
+import itertools, json, os, random, re, shutil
 from .. import common as C
 from .. import h1, h2, drv, scen
 from ..scen import stmt, wrap_fn
 
 LOCKS = ["absent", "valid100", "bare", "corrupt", "empty", "wrongkey", "negative", "noninteger", "valid5000000000",
-         "conflict", "dupkey", "valid_doc100", "valid_crlf100", "valid_tail100"]
+         "conflict", "dupkey", "valid_doc100", "valid_crlf100", "valid_tail100", "valid0"]
 
 
 def trees(structured_src):
@@ -41,7 +41,7 @@ def judge(s, o, expect_structured, expect_ext_rs, first):
         ids += [scen.token_id(t) for _, t in (d or [])]
     if uc:
         if lk_before.startswith("V") and int(lk_before[1:]) <= 4294967295:
-            if ids and min(ids) != int(lk_before[1:]):
+            if ids and min(ids) != max(int(lk_before[1:]), 1):       # IDs start at 1 whatever the lock records
                 problems.append("valid lock %s but the first new ID is %d" % (lk_before, min(ids)))
         elif ids:
             # unparsable / absent lock: ignored in favour of scanning the code (existing max is 7)
@@ -82,7 +82,7 @@ def run(rep, tier, seed, model_ok):
         # structured default: omitted => the reference goes into the message text
         if s.mode == "edit" and s.name.endswith("missing") and cls == "OK":
             nb = drv.final_bytes(o, "a.rs") or b""
-            if bool(s.structured) != (b"ref = " in nb) or bool(s.structured) == (b"[ref: 8] a" in nb or b"[ref: 100] a" in nb or b"[ref: 42] a" in nb):
+            if bool(s.structured) != (b"ref = " in nb) or bool(s.structured) == bool(re.search(rb"\[ref: \d+\] a", nb)):
                 p.append("structured=%r but the edited file is %r" % (s.structured, nb[:80]))
         if cls not in ("OK", "ERR"):
             p.append("run ended with %s" % cls)
